@@ -6,6 +6,7 @@ use serde::{de::DeserializeOwned, Serialize};
 use serde_json::Value;
 use std::collections::BTreeMap;
 
+pub mod c18;
 pub mod c19;
 
 #[derive(Clone, Copy, Debug, PartialEq, Eq)]
@@ -31,7 +32,7 @@ impl Tier {
 
 pub trait Prop {
     const ID: &'static str;
-    type Case: Serialize + DeserializeOwned + Clone;
+    type Case: Serialize + DeserializeOwned + Clone + Sync + Send;
     /// number of runs in a batch of this tier
     fn runs(tier: Tier) -> u64;
     /// runs per chunk (a chunk is one worker process invocation)
@@ -59,6 +60,10 @@ pub trait Prop {
 macro_rules! with_prop {
     ($id:expr, $P:ident => $body:expr) => {
         match $id {
+            "C18" => {
+                type $P = $crate::props::c18::C18;
+                Some($body)
+            }
             "C19" => {
                 type $P = $crate::props::c19::C19;
                 Some($body)
@@ -68,4 +73,4 @@ macro_rules! with_prop {
     };
 }
 
-pub const CLAIMED: [&str; 1] = ["C19"];
+pub const CLAIMED: [&str; 2] = ["C18", "C19"];
